@@ -81,6 +81,7 @@ type Gen struct {
 	NoBreak       []int // indices of tokens that must not follow a line break (restricted productions)
 	Boundaries    []int // indices of first tokens of statements whose predecessor needs a separator
 	ElseAfterExpr []int // indices of the `else` (or the `;` before it) that follows an expression-ended branch
+	HeaderEnds    []int // indices of the ) that closes an if / while / for header (a body must follow)
 }
 
 func NewGen(budget int) *Gen {
@@ -259,7 +260,18 @@ func (g *Gen) Expr(ctx int) {
 		if g.NoFunc {
 			n = eFunc
 		}
-		kind = sym.Choose("expr", n)
+		if mask := sym.Param("exprmask", 0); mask != 0 {
+			// restrict internal nodes to the expression kinds whose bit is set
+			var sel []int
+			for i := 0; i < n; i++ {
+				if i == eAtom || mask&(1<<uint(i)) != 0 {
+					sel = append(sel, i)
+				}
+			}
+			kind = sel[sym.Choose("expr", len(sel))]
+		} else {
+			kind = sym.Choose("expr", n)
+		}
 	}
 	if kind == eAtom {
 		if g.Palette > 0 {
@@ -274,7 +286,7 @@ func (g *Gen) Expr(ctx int) {
 	binLevel := 0
 	switch kind {
 	case eBinary:
-		binLevel = lvOr + sym.Choose("level", 6)
+		binLevel = lvOr + sym.Choose("level", sym.Param("binlevels", 6))
 		lvl = binLevel
 	case eAssign, eCompound:
 		lvl = lvAssign
@@ -679,9 +691,12 @@ func startsOperand(t token.Type) bool {
 	return false
 }
 
+// endsOperand: last token of a statement that ends with an expression (the
+// generator only asks at boundaries after let / return / expression statements).
 func endsOperand(t token.Type) bool {
 	switch t {
-	case token.IDENT, token.INT, token.FLOAT, token.STRING, token.TRUE, token.FALSE, token.NULL:
+	case token.IDENT, token.INT, token.FLOAT, token.STRING, token.TRUE, token.FALSE, token.NULL,
+		token.RPAREN, token.RBRACKET, token.RBRACE, token.RAW_STRING, token.INCREMENT, token.DECREMENT:
 		return true
 	}
 	return false
@@ -708,6 +723,11 @@ func (g *Gen) insert(at int, t token.Type) {
 	for i := range g.NoBreak {
 		if g.NoBreak[i] >= at {
 			g.NoBreak[i]++
+		}
+	}
+	for i := range g.HeaderEnds {
+		if g.HeaderEnds[i] >= at {
+			g.HeaderEnds[i]++
 		}
 	}
 	for i := range g.Boundaries {
@@ -762,11 +782,10 @@ func (g *Gen) Stmt(body, closed bool) bool {
 	g.site = true
 	g.StmtFirst = append(g.StmtFirst, len(g.Toks))
 	kind := sExpr
-	if g.Budget > 0 {
-		kinds := []int{sExpr, sBlock}
-		if !closed {
-			kinds = append(kinds, sIf, sWhile, sFor)
-		}
+	if g.Budget > 0 && sym.Param("exprstmtonly", 0) == 0 {
+		// closed: while/for are fine (their body is generated closed as well);
+		// an if must then carry an else
+		kinds := []int{sExpr, sBlock, sIf, sWhile, sFor}
 		if !body {
 			kinds = append(kinds, sLet)
 			if !g.NoFunc {
@@ -777,6 +796,13 @@ func (g *Gen) Stmt(body, closed bool) bool {
 			kinds = append(kinds, sReturn)
 		}
 		kind = kinds[sym.Choose("stmt", len(kinds))]
+	} else if g.Palette > 0 && sym.Choose("emptyblock", 2) == 1 {
+		// with palette leaves, an empty block is available at no cost
+		g.emit(KBlock, 0, KEnd)
+		g.kw(token.LBRACE)
+		g.site = true
+		g.BlockEnds = append(g.BlockEnds, g.kw(token.RBRACE))
+		return false
 	}
 	switch kind {
 	case sExpr:
@@ -808,8 +834,8 @@ func (g *Gen) Stmt(body, closed bool) bool {
 		g.kw(token.IF)
 		g.kw(token.LPAREN)
 		g.Expr(lvAssign)
-		g.kw(token.RPAREN)
-		hasElse := (g.Budget > 0 || g.Palette > 0) && sym.Choose("else", 2) == 1
+		g.HeaderEnds = append(g.HeaderEnds, g.kw(token.RPAREN))
+		hasElse := closed || ((g.Budget > 0 || g.Palette > 0) && sym.Choose("else", 2) == 1)
 		ns := g.Stmt(true, hasElse)
 		if hasElse {
 			g.emit(1)
@@ -833,7 +859,7 @@ func (g *Gen) Stmt(body, closed bool) bool {
 		g.kw(token.WHILE)
 		g.kw(token.LPAREN)
 		g.Expr(lvAssign)
-		g.kw(token.RPAREN)
+		g.HeaderEnds = append(g.HeaderEnds, g.kw(token.RPAREN))
 		return g.Stmt(true, closed)
 	case sFor:
 		g.spend()
@@ -866,7 +892,7 @@ func (g *Gen) Stmt(body, closed bool) bool {
 		} else {
 			g.emit(KNil)
 		}
-		g.kw(token.RPAREN)
+		g.HeaderEnds = append(g.HeaderEnds, g.kw(token.RPAREN))
 		g.noTrivia--
 		return g.Stmt(true, closed)
 	case sBlock:
